@@ -232,7 +232,7 @@ class QuadraticModelBase {
     const_quadratic_iterator cend_quadratic() const;
 
     /// Remove the offset and all variables and interactions from the model.
-    void clear();
+    virtual void clear();
 
     /**
      * Return the energy of the given sample.
